@@ -122,6 +122,12 @@ func secretBytes(id int) []byte {
 		return []byte("1234\n")
 	case 13:
 		return []byte("\t1234")
+	case 14:
+		return []byte{0}
+	case 15:
+		return []byte("\x00\x001337")
+	case 16:
+		return []byte("1337")
 	}
 	return []byte(fmt.Sprintf("smp-secret-%d", id))
 }
@@ -392,7 +398,25 @@ func genSchedule(rng *rand.Rand, family string, depth int) *Schedule {
 		// SMP runs (equal / different secrets, with / without question, either initiator,
 		// back to back, aborted, answered late) interleaved with ordinary traffic
 		sc.Setup = "ake"
-		if rng.Intn(3) == 0 {
+		if rng.Intn(4) == 0 {
+			// the peer comes back with another long-term key: new session, SMP binds to the new key
+			p := ps[rng.Intn(2)]
+			add(Step{A: "SMPStart", P: "A", S: 2})
+			add(Step{A: "Deliver", P: "B"})
+			add(Step{A: "SMPAnswer", P: "B", S: 2})
+			for k := 0; k < 3; k++ {
+				add(Step{A: "Deliver", P: "A"})
+				add(Step{A: "Deliver", P: "B"})
+			}
+			add(Step{A: "SetKeys", P: p})
+			add(Step{A: "Tick", P: "A"})
+			add(Step{A: "Tick", P: "B"})
+			add(Step{A: "Query", P: p})
+			for k := 0; k < 5; k++ {
+				add(Step{A: "Deliver", P: "A"})
+				add(Step{A: "Deliver", P: "B"})
+			}
+		} else if rng.Intn(3) == 0 {
 			add(Step{A: "SetKeys", P: ps[rng.Intn(2)]})
 			add(Step{A: "Send", P: "A", T: 901})
 			add(Step{A: "Deliver", P: "B"})
@@ -427,10 +451,10 @@ func genSchedule(rng *rand.Rand, family string, depth int) *Schedule {
 			if ini == "B" {
 				oth = "A"
 			}
-			s1 := 1 + rng.Intn(13)
+			s1 := 1 + rng.Intn(16)
 			s2 := s1
 			if rng.Intn(3) == 0 {
-				s2 = 1 + rng.Intn(13)
+				s2 = 1 + rng.Intn(16)
 			}
 			traffic := func() {
 				for k := 0; k < rng.Intn(3); k++ {
@@ -475,9 +499,9 @@ func genSchedule(rng *rand.Rand, family string, depth int) *Schedule {
 		}
 		{
 			which := (genIdx / 2) % 4
-			force := []string{"count-1", "count+1", "count0", "countmax", "count2^28"}[(genIdx/8)%5]
+			force := []string{"count-1", "count+1", "count0", "countmax", "count2^28", "count2^30", "count2^30+1", "count2^31"}[(genIdx/8)%8]
 			ini, oth := "A", "B"
-			add(Step{A: "SMPStart", P: ini, S: 1, Q: (genIdx/40)%2 == 1})
+			add(Step{A: "SMPStart", P: ini, S: 1, Q: (genIdx/64)%2 == 1})
 			if which == 0 {
 				add(Step{A: "SMPTamper", P: oth, F: force})
 			} else {
@@ -781,6 +805,22 @@ func genSchedule(rng *rand.Rand, family string, depth int) *Schedule {
 			add(Step{A: "Tick", P: "B"})
 			add(Step{A: "Query", P: ps[rng.Intn(2)]})
 			for k := 0; k < 5; k++ {
+				add(Step{A: "Deliver", P: "A"})
+				add(Step{A: "Deliver", P: "B"})
+			}
+		}
+		return sc
+	case "lensweep":
+		// ping-pong with text lengths swept across the padding boundaries (multiples of 256 minus the TLV
+		// overhead) one by one
+		sc.Setup, sc.Fam = "ake", "fifo-data"
+		{
+			base := []int{240, 496, 752, 1008}[genIdx%4]
+			for d := 0; d < depth; d++ {
+				add(Step{A: "Send", P: "A", T: 7000 + base + 2*d})
+				add(Step{A: "Deliver", P: "B"})
+				add(Step{A: "Deliver", P: "A"})
+				add(Step{A: "Send", P: "B", T: 7000 + base + 2*d + 1})
 				add(Step{A: "Deliver", P: "A"})
 				add(Step{A: "Deliver", P: "B"})
 			}
